@@ -21,26 +21,26 @@ import (
 
 // world = one canonical chain (reference node + generator) under one protocol configuration.
 type world struct {
-	t      testing.TB
-	id     int
-	net    *chainkit.Net
-	magic  uint32
-	srih   bool
-	vt     bool
-	ref    *core.Blockchain
-	gen    *histgen.Gen
-	std    *sigSet
-	alt    *sigSet
-	blocks []*block.Block // canonical block i
-	raws   [][]byte
-	roots  []util.Uint256 // local state root after block i
-	digs   []chainkit.Digest
-	signer []*sigSet // set that signs block i (i >= 1)
-	scenes map[int]*scene
-	rnd    *rand.Rand
-	epoch  int // index of the block that designates the alternative validators
-	prepB0 *transaction.Transaction
-	maxInc uint32
+	t           testing.TB
+	id          int
+	net         *chainkit.Net
+	magic       uint32
+	srih        bool
+	vt          bool
+	ref         *core.Blockchain
+	gen         *histgen.Gen
+	std         *sigSet
+	alt         *sigSet
+	blocks      []*block.Block // canonical block i
+	raws        [][]byte
+	roots       []util.Uint256 // local state root after block i
+	digs        []chainkit.Digest
+	signer      []*sigSet // set that signs block i (i >= 1)
+	scenes      map[int]*scene
+	rnd         *rand.Rand
+	epoch       int // index of the block that designates the alternative validators
+	prepB0      *transaction.Transaction
+	maxInc      uint32
 	refRejected string
 }
 
